@@ -468,14 +468,21 @@ class BaseTaskPool:
             self._cancel_on_start[task_id] = kw
         elif task is self._current_task():
             # A task cancelling itself from its own code is running, not
-            # suspended: `Task.cancel()` would merely mark it, and if it then
-            # finishes without suspending again, it ends up in the cancelled
-            # state although its wrapper ran to completion (making `gather` in
-            # `flush`/`gather_and_close` raise `CancelledError`). Deliver the
-            # request in the next loop iteration instead; by then the task has
-            # either suspended or is done.
-            task.get_loop().call_soon(partial(task.cancel, **kw))
+            # suspended: `Task.cancel()` would merely mark it, and if its
+            # coroutine then finishes without suspending again, the request
+            # would hit its end callback or leave the finished task in the
+            # cancelled state (making `gather` in `flush`/`gather_and_close`
+            # raise `CancelledError`). Deliver the request in the next loop
+            # iteration instead, and only if the task still counts as running.
+            task.get_loop().call_soon(
+                partial(self._cancel_if_running, task_id, task, **kw)
+            )
         else:
+            task.cancel(**kw)
+
+    def _cancel_if_running(self, task_id: int, task: Task[Any], **kw: Any) -> None:
+        """Cancels the task, unless its coroutine has finished in the meantime."""
+        if self._tasks_running.get(task_id) is task:
             task.cancel(**kw)
 
     @staticmethod
